@@ -180,6 +180,13 @@ def c08_scripts(tier):
     S.append(("empty", [], b""))
     nvol = 20000 if tier == "quick" else 100000  # the debug-profile binary is superlinear in lines per flush
     S.append(("volume", ["outrep %d " % nvol + h(b"0123456789abcdef\n")], b"0123456789abcdef\n" * nvol))
+    # incompressible output (pseudo-random bytes as 64-byte lines, and as one long line)
+    import random
+    rnd = random.Random(12345)
+    dense = b"".join(bytes(rnd.randrange(32, 127) for _ in range(63)) + b"\n" for _ in range(5000))
+    S.append(("dense-lines", ["out " + h(dense)], dense))
+    blob = bytes(rnd.randrange(32, 127) for _ in range(400000)) + b"\n"
+    S.append(("dense-long-line", ["out " + h(blob)], blob))
     if tier != "quick":
         S.append(("three-ticks-inside-line", ["out " + h(b"p"), "sleep 600", "out " + h(b"q"), "sleep 600", "out " + h(b"r"), "sleep 600", "out " + h(b"s\n")], b"pqrs\n"))
         S.append(("crlf", ["out " + h(b"a\r\nb\r\n")], b"a\r\nb\r\n"))
